@@ -6,7 +6,8 @@ import (
 	"fmt"
 	"os"
 	"runtime/debug"
-	"strings"
+
+	"github.com/nspcc-dev/neo-go/pkg/smartcontract/trigger"
 
 	"verif/harness/internal/hx"
 	"verif/harness/internal/prng"
@@ -24,7 +25,7 @@ func main() {
 	f := hx.ParseFlags()
 	o := hx.NewOut(f.Out)
 	defer o.Close()
-	n := f.N(60, 3000)
+	n := f.N(100, 3000)
 	for k := 0; k < n; k++ {
 		if !f.Want(k) {
 			continue
@@ -57,19 +58,24 @@ func runCase(o *hx.Out, f *hx.Flags, k int) {
 		C, V, nUsers, nExtra = 2, 1, 4, 1
 	case 1:
 		C, V, nUsers, nExtra = 1, 1, 3, 1
+	case 2:
+		C, V, nUsers, nExtra = 3, 2, 4, 2
 	}
 	w := newWorld(t, r, C, V, nUsers, nExtra)
 	o.Case(k)
 	attrFee := w.bc.GetNotaryServiceFeePerKey()
-	o.Line(fmt.Sprintf("init %d %d %d %d %d %d %d %d", w.aid(w.notaryH), w.aid(w.neoH), C, V, attrFee, w.aid(w.treasuryH), w.aid(w.valSigner.ScriptHash()), gasInit), "ok")
+	o.Line(w.initLine(attrFee, gasInit), "ok")
 	// block 0: PostPersist of the genesis block
 	st := w.dump()
-	var ms []string
-	for _, c := range st.committee {
-		ms = append(ms, fmt.Sprintf("%d:%d:%s", w.pid(c.pub), w.aid(c.pub.GetScriptHash()), c.votes))
+	o.Line("postpersist", "ok")
+	var ev0 []xfer
+	gh := w.bc.GetHeaderHash(0)
+	for _, tr := range []trigger.Type{trigger.OnPersist, trigger.PostPersist} {
+		if aers, err := w.bc.GetAppExecResults(gh, tr); err == nil && len(aers) == 1 {
+			ev0 = append(ev0, w.transfers(aers[0].Events, func(string) {})...)
+		}
 	}
-	o.Line("postpersist "+strings.Join(ms, ","), "ok")
-	o.Line("endblock", w.line(st))
+	o.Line("endblock", w.line(st)+w.govLine(st, ev0))
 	w.oracle(o, k, 0, st, st, nil)
 
 	w.setup(o, k)
@@ -86,12 +92,16 @@ func runCase(o *hx.Out, f *hx.Flags, k int) {
 		corpus1(w, o, k)
 		nb = 10
 		o.Count("case:corpus")
+	case 2:
+		corpus2(w, o, k)
+		nb = 10
+		o.Count("case:corpus")
 	}
 	for i := 0; i < nb; i++ {
 		w.randomBlock(o, k)
 	}
 	o.Seen(fmt.Sprintf("%d/%d", f.Seed, k))
-	if k < 2 {
+	if k < nCorpus {
 		o.Sample(fmt.Sprintf("case %d: committee %d validators %d users %d blocks %d; final %s", k, C, V, nUsers, nb, w.line(w.dump())))
 	}
 }
